@@ -50,7 +50,7 @@ def worker_check(P, tier, seed, which):
     c = Corr()
     c.rule = ("real-time scenarios from 12 families (single, burst, straddling the window end, continuous rejected / accepted streams, urgent "
               "flush, slow sync/async handler, 2-4 concurrent producers, empty events, filter errors, queue capacity 1-2, priority mix) with "
-              "throttle 0/60/80/100 ms, run against the public action::worker; the throttle model is evaluated on the observed receive "
+              "throttle 0/60/80/100 ms and throttles changed at run time (raised while idle, raised or lowered in the middle of a window), run against the public action::worker; the throttle model is evaluated on the observed receive "
               "instants and must yield the observed batches; monitors check conservation / timing directly on the observations. "
               "non-trivial = distinct scenarios with at least two events and one batch")
     r = rng(seed, "worker")
@@ -62,7 +62,8 @@ def worker_check(P, tier, seed, which):
         c.errors.append(str(e))
         return c
     recs = [reconstruct(cs_, o) for cs_, o in zip(cases, obs)]
-    res, err = coq_eval("worker_" + P.pid, ["Worker.Throttle", "Run.EvalWorker"], [model_term(cs_, rec[0]) for cs_, rec in zip(cases, recs)])
+    res, err = coq_eval("worker_" + P.pid, ["Worker.Throttle", "Run.EvalWorker"],
+                        [model_term(cs_, rec[0], throttle_sets(o)) for cs_, rec, o in zip(cases, recs, obs)])
     if err:
         c.errors.append("model evaluation failed: " + err[-800:])
         return c
@@ -71,7 +72,7 @@ def worker_check(P, tier, seed, which):
         c.evaluations += 1
         c.count("family=" + case["family"])
         mb, merrs = parse_model(m)
-        amb = ambiguous(case, seq, mb)
+        amb = ambiguous(case, seq, mb, throttle_sets(o))
         if amb:
             c.count("ambiguous_timing")
         impl_ids = [ids for _, ids, _ in batches]
@@ -86,7 +87,7 @@ def worker_check(P, tier, seed, which):
             c.nontrivial.add(json.dumps(case, sort_keys=True))
         mons = monitors_c01(case, seq, batches, filt, sent) if which in ("c01", "c15") else []
         if which == "c02":
-            mons = monitors_c02(case, seq, batches, filt, sent, mb if not amb else None)
+            mons = monitors_c02(case, seq, batches, filt, sent, mb if not amb else None, throttle_sets(o))
         for clause, detail in mons:
             c.failing.append({"case": case, "impl": {"batches": batches, "received": seq}, "clause": clause, "detail": detail})
         if len(c.samples) < 3 and len(batches) >= 2:
